@@ -411,6 +411,14 @@ pub fn check_oligocgr_rows(data: &[u8], recs: &[Rec], k: usize, s: u64, norm: bo
             return Err(("kcgr.triple_count".into(), format!("row {} has {} triples, {} canonical {}-mers exist", i, tr.len(), c.codes.len(), k)));
         }
         let (counts, total) = model::oligo_counts(&rec.seq, k, &c.codes);
+        // "f equals the value the oligonucleotide vector gives that column for the same record": the vector of the
+        // real oligo routine, compared exactly wherever the row prints f with full precision
+        let oligo_vec = guarded(|| {
+            let mut oc = composition::oligo::OligoComputer::new("unused.fa".into(), "unused.out".into(), k);
+            oc.set_norm(norm);
+            oc.verif_vectorise_one(&rec.seq)
+        })
+        .ok();
         for (j, t) in tr.iter().enumerate() {
             if (t[0], t[1]) != ends[j] {
                 return Err((
@@ -424,6 +432,22 @@ pub fn check_oligocgr_rows(data: &[u8], recs: &[Rec], k: usize, s: u64, norm: bo
             } else {
                 t[2] == counts[j] as f64
             };
+            if ok && norm {
+                if let Some(ov) = oligo_vec.as_ref().and_then(|v| v.get(j)) {
+                    if t[2].to_bits() != ov.to_bits() {
+                        // a row that prints f with a fixed small number of decimals is compared at that precision
+                        let repr = format!("{}", t[2]);
+                        let decimals = repr.split('.').nth(1).map_or(0, |d| d.len());
+                        let same_at_printed_precision = decimals <= 12 && (t[2] - ov).abs() <= 0.5000001 * 10f64.powi(-(decimals as i32));
+                        if !same_at_printed_precision {
+                            return Err((
+                                "kcgr.freq.differs_from_oligo_vector".into(),
+                                format!("row {} (record {}) column {} ({}): f = {:?} but the oligonucleotide vector of the same record gives {:?} ({}/{})", i, rec.id, j, c.names[j], t[2], ov, counts[j], total),
+                            ));
+                        }
+                    }
+                }
+            }
             if !ok {
                 return Err((
                     if norm { "kcgr.freq.norm" } else { "kcgr.freq.count" }.into(),
